@@ -337,3 +337,58 @@ func collectionScope(c *core.Ctx) {
 		c.Check(have == want.want, key, site[key], "ranges over "+have+": "+want.why, "ranges over "+have+" but must range over "+want.want+" ("+want.why+"): objects outside that collection are skipped, or unchanged objects are processed again")
 	}
 }
+
+func init() {
+	addRule("C14", &core.Rule{ID: "C14.add-del-lists", Floor: 10, Run: c14AddDel,
+		Doc: "Every typed watcher handler records a created object in the list whose name ends in Add and a deleted one in the list ending in Del (the element types make a wrong kind a compile error; a wrong direction is not), appending the object it was given and keeping the list (the append result is stored back into the same field)."})
+}
+
+func c14AddDel(c *core.Ctx) {
+	for _, hn := range []string{"watchers.handlersCore", "watchers.handlersIngress", "watchers.handlersGatewayv1alpha2", "watchers.handlersGatewayv1beta1", "watchers.handlersGatewayv1", "watchers.handlersTCPRoutev1alpha2"} {
+		fn := c.Env.Func("controller/reconciler", hn)
+		if fn == nil {
+			continue
+		}
+		c.Touch(fn)
+		for _, b := range fn.Blocks {
+			for _, in := range b.Instrs {
+				st, ok := in.(*ssa.Store)
+				if !ok {
+					continue
+				}
+				mc, ok := st.Val.(*ssa.MakeClosure)
+				if !ok {
+					continue
+				}
+				o, f := core.FieldOf(st.Addr)
+				if !strings.HasSuffix(o, "controller/reconciler.hdlr") || f != "add" && f != "del" {
+					continue
+				}
+				cl := mc.Fn.(*ssa.Function)
+				c.Touch(cl)
+				want := map[string]string{"add": "Add", "del": "Del"}[f]
+				n := 0
+				for _, cb := range cl.Blocks {
+					for _, cin := range cb.Instrs {
+						cs, ok := cin.(*ssa.Store)
+						if !ok {
+							continue
+						}
+						co, cf := core.FieldOf(cs.Addr)
+						if !strings.HasSuffix(co, "converters/types.ChangedObjects") {
+							continue
+						}
+						n++
+						key := hn[9:] + " " + f + " handler: " + cf
+						l := sliceLeaves(c.Env, cs.Val, 0)
+						okv := strings.HasSuffix(cf, want) && leavesContain(l, "param:o") && strings.Contains(core.Key(cs.Val), cf)
+						c.Check(okv, key, at(c, cs), "appends the object to "+cf, "a "+map[string]string{"add": "created", "del": "deleted"}[f]+" object is recorded in `"+cf+"` with value "+leavesList(l)+": the converter sees the wrong direction or loses the event")
+					}
+				}
+				if n == 0 {
+					c.Violated(hn[9:]+" "+f+" handler "+core.FuncName(cl)+" records the object", c.Pos(cl.Pos()), "the handler stores nothing into the changed-objects lists")
+				}
+			}
+		}
+	}
+}
